@@ -49,3 +49,45 @@ Proof.
   intros Hf Hra. apply atbound_loops_eq; [exact Hf|].
   apply atbound_arg_range; [exact Hra|apply atan2_bound].
 Qed.
+
+(* ---------------------------------------------------------------- system='xyz' *)
+Theorem randsphere_xyz_in_box ra0 ra1 dec0 dec1 u1 u2 :
+  valid_box ra0 ra1 dec0 dec1 -> unit_dev u1 -> unit_dev u2 ->
+  let '(x, y, z) := randsphere_xyz_R ra0 ra1 dec0 dec1 u1 u2 in
+  x * x + y * y + z * z = 1 /\ sin (d2r dec0) <= z <= sin (d2r dec1).
+Proof.
+  intros HB H1 H2. pose proof (randsphere_in_box ra0 ra1 dec0 dec1 u1 u2 HB H1 H2) as [_ [Hlo Hhi]].
+  unfold randsphere_xyz_R. destruct (randsphere_R ra0 ra1 dec0 dec1 u1 u2) as [ra dec]. cbn [fst snd] in *.
+  pose proof (eq2xyz_unit ra dec) as U. unfold eq2xyz, thetaphi2xyz, dot in *.
+  destruct HB as [_ [_ [[Hd0 Hd01] Hd1]]].
+  assert (R90 : d2r 90 = PI / 2) by apply d2r_90.
+  assert (Rm90 : d2r (-90) = - (PI / 2)) by (unfold d2r; field).
+  split; [exact U|]. split; apply sin_incr_1; try apply d2r_le; try lra;
+    try (rewrite <- Rm90; apply d2r_le; lra); try (rewrite <- R90; apply d2r_le; lra).
+Qed.
+
+(* ---------------------------------------------------------------- dorot does not move the point *)
+Lemma cap_vec_rot_is_cap_vec ra dec rad u upsi : cap_vec_rot ra dec rad u upsi = cap_vec ra dec rad u upsi.
+Proof.
+  unfold cap_vec_rot, cap_vec. cbv zeta.
+  replace (d2r (dec + 90)) with (d2r dec + PI / 2) by (rewrite d2r_plus, d2r_90; reflexivity).
+  rewrite sin_plus, cos_plus, cos_PI2, sin_PI2. f_equal; [f_equal|]; ring.
+Qed.
+
+(* Both branches of randcap return the SAME direction on the sphere and the same radius for the same
+   deviates: forcing the rotation (dorot=True, or a centre within 0.1 deg of a pole) changes how the
+   point is computed, not which point it is. *)
+Theorem randcap_branches_agree ra dec rad u upsi :
+  let '(ra1, dec1, r1) := randcap_unrot ra dec rad u upsi in
+  let '(ra2, dec2, r2) := randcap_rot ra dec rad u upsi in
+  eq2xyz ra1 dec1 = eq2xyz ra2 dec2 /\ r1 = r2.
+Proof.
+  pose proof (randcap_unrot_vec ra dec rad u upsi) as V1. pose proof (randcap_rot_vec ra dec rad u upsi) as V2.
+  rewrite cap_vec_rot_eq, cap_vec_rot_is_cap_vec in V2.
+  unfold randcap_rot in *.
+  destruct (randcap_unrot 90 0 rad u upsi) as [[a0 d0] r0] eqn:E0.
+  destruct (rotate_R 0 (dec - 0) 0 a0 d0) as [a1 d1]. destruct (rotate_R (ra - 90) 0 0 a1 d1) as [a2 d2].
+  destruct (randcap_unrot ra dec rad u upsi) as [[ra1 dec1] r1] eqn:E1.
+  split; [rewrite V1, V2; reflexivity|].
+  unfold randcap_unrot in E0, E1. inversion E0. inversion E1. reflexivity.
+Qed.
